@@ -124,8 +124,16 @@ impl Pacer {
             / window;
 
         // divisions come before multiplications to prevent overflow
+        let delay = (unscaled_delay / 5) * 4;
+        if delay.is_zero() {
+            // The missing tokens accrue in less than a nanosecond. Asking to be called again at
+            // `now` would make a caller that services timers at their deadline spin at this very
+            // instant: no time passes, so no tokens are ever generated.
+            return None;
+        }
+
         // this is the time at which the pacing window becomes empty
-        Some(now + (unscaled_delay / 5) * 4)
+        Some(now + delay)
     }
 }
 
